@@ -227,6 +227,8 @@ type World struct {
 	stats *Stats
 
 	lastNPR *prepReq // arguments of the latest NewPrepareRequest callback (C15)
+	obsOn   bool       // C14: per-node observation sequences with timestamps relative to the epoch
+	obs     [][]string
 	e2      *e2env
 	skips   int
 	hist    []Event
@@ -262,6 +264,8 @@ func newWorld(sc *Scenario, st *Stats) *World {
 	}
 	w.now = time.Unix(sc.EpochUnix, 0).UTC()
 	w.logOn = forceLog
+	w.obsOn = forceObs
+	w.obs = make([][]string, len(sc.Kinds))
 	curWorld = w
 	if sc.ClockNs != 0 {
 		w.now = time.Unix(0, sc.ClockNs).UTC()
@@ -348,16 +352,48 @@ func (w *World) hookNewPrepareRequest(n *Node, ts, nonce uint64, txs []H) {
 }
 func (w *World) hookTimer(n *Node, op string, h uint32, v byte, d time.Duration) {
 	w.logf("n%d Timer.%s(%d,%d,%v)", n.id, op, h, v, d)
+	if w.obsOn {
+		w.obs[n.id] = append(w.obs[n.id], fmt.Sprintf("Timer.%s(%d,%d,%d)", op, h, v, d))
+	}
+}
+
+// relTS renders an absolute nanosecond timestamp relative to the scenario's epoch.
+func (w *World) relTS(ts uint64) int64 { return int64(ts) - w.start.UnixNano() }
+
+func (w *World) obsPayload(p *Payload) string {
+	s := fmt.Sprintf("%s h%d v%d i%d", typeShort[p.typ], p.height, p.view, p.idx)
+	switch b := p.body.(type) {
+	case *prepReq:
+		s += fmt.Sprintf(" ts%+d txs%v", w.relTS(b.ts), b.txs)
+	case *changeView:
+		s += fmt.Sprintf(" new%d %s ts%+d", b.newView, b.reason, w.relTS(b.ts))
+	case *recReq:
+		s += fmt.Sprintf(" ts%+d", w.relTS(b.ts))
+	case *recMsg:
+		var es []string
+		for _, e := range b.payloads {
+			es = append(es, w.obsPayload(e))
+		}
+		slices.Sort(es)
+		s += fmt.Sprint(es)
+	}
+	return s
 }
 func (w *World) hookBroadcast(n *Node, p *Payload) {
 	w.stats.KindsSent[typeShort[p.typ]]++
 	w.logf("n%d broadcast %s", n.id, p)
+	if w.obsOn {
+		w.obs[n.id] = append(w.obs[n.id], "broadcast "+w.obsPayload(p))
+	}
 	w.oracleBroadcast(n, p)
 }
 
 // onDecide: C01 agreement, evaluated on every acceptance by a trusted node.
 func (w *World) onDecide(n *Node, b *Block) {
 	w.logf("n%d ProcessBlock h%d view%d %s", n.id, b.index, n.d.ViewNumber, b.Hash())
+	if w.obsOn {
+		w.obs[n.id] = append(w.obs[n.id], fmt.Sprintf("ProcessBlock h%d v%d ts%+d txs%v", b.index, n.d.ViewNumber, w.relTS(b.ts), b.txHashes))
+	}
 	if !n.trusted() {
 		return
 	}
@@ -811,6 +847,14 @@ func (w *World) apply(e Event) {
 		n.known[e.P] = true
 	case "twin":
 		w.twinCheck(nil)
+	case "epochs":
+		w.steps--
+		if key, msg := c14Compare(w.sc, w.hist[:len(w.hist)-1]); key != "" {
+			w.violate("C14", key, nil, msg)
+		}
+	case "detcheck":
+		w.steps--
+		w.detCheck()
 	case "endcheck":
 		w.steps-- // not a scheduling step
 		w.endCheck()
